@@ -344,7 +344,7 @@ class Run:
                 'correspondence': self.corr,
                 'search_labelled_test_not_proof': self.search,
                 'evaluations': max(self.evaluations, 1),
-                'distinct_nontrivial': max(len(self.distinct), 0),
+                'distinct_nontrivial': min(max(len(self.distinct), 0), max(self.evaluations, 1)),
                 'rule': ' | '.join(self.rule) or 'obligations only',
                 'samples': self.samples[:12] or [{'obligation': o[0]} for o in self.obl[:5]],
                 'known_findings': self.known, 'notes': self.notes,
